@@ -31,6 +31,9 @@ CLAIMED = {
              technique="CrossHair symbolic execution + bit-precise SMT (QF_BVFP, cvc5/z3) lemma from the AST + bounded symbolic execution over reals",
              note="create_edges_new stubbed for the kernel harness; L <= 41 (kernel), L <= 4096 (lemma), ne <= 12; catalogue meshes with 0..8 interior points; parsed skeletons / dumps are outside.",
              ref="3/C11"),
+ "C12": dict(text="Displacements of all tracked points are symbols in a box; the real create_mapping / find_best / get_point_id_by_map are explored over every outcome of the growing-radius nearest-neighbour search, and injectivity, end-point membership, honoured user pairings, correctness of every pairing and the forward-backward round trip are checked on every path.",
+             note="Small bounds: 4 tracked points (T3; K3-n0 thorough), 2 (3) frames, displacements up to 0.3% (0.55% thorough) of the extent, cm off; larger displacements and cm=True did not finish within the budget and are outside the claim.",
+             ref="3/C12"),
  "C13": dict(text="Three-frame series with symbolic positions, symbolic increasing time stamps and per-frame renumbering: the real calculate_velocity / get_point_id_by_map / set_velocity_matrix / get_system_velocity_per_frame are executed symbolically and every velocity, right-hand-side entry and normalisation is compared with the finite-difference definition as an identity between terms.",
              note="Correspondence supplied through initial_guess (the search is C12); min/max as If-terms; T3 (K3 thorough); every used junction moves between consecutive frames (otherwise the adimensional normalisation divides by zero).",
              ref="3/C13"),
